@@ -17,7 +17,14 @@ for d in sorted(glob.glob(root + '/seeded/*/meta.json')):
     first = (chk.get('first') or [''])[0]
     first = re.sub(r'\s+', ' ', first)[:160].replace('|', '/')
     caught = ('`%s` exit %s, %d VIOLATION lines; e.g. %s' % (chk.get('cmd', '').split('./check ')[-1], chk.get('exit'), chk.get('violation_lines', 0), first)) if v.get('detected') else '**not caught** by `%s`' % chk.get('cmd', '').split('./check ')[-1]
-    det += 1 if v.get('detected') else 0
+    rc = m.get('recheck')
+    if rc and not v.get('detected'):
+        rfirst = re.sub(r'\s+', ' ', (rc.get('first') or [''])[0])[:160].replace('|', '/')
+        if rc.get('detected'):
+            caught = 'escaped the first version; after strengthening `%s` exit %s, %d VIOLATION lines; e.g. %s' % (rc.get('cmd', '').split('./check ')[-1], rc.get('exit'), rc.get('violation_lines', 0), rfirst)
+        else:
+            caught += '; still not caught after strengthening (`%s`)' % rc.get('cmd', '').split('./check ')[-1]
+    det += 1 if (v.get('detected') or (rc or {}).get('detected')) else 0
     what = (m.get('title') or m.get('what_it_breaks', ''))[:200].replace('|', '/').replace('\n', ' ')
     need = (m.get('needs_to_manifest', '') or '')[:260].replace('|', '/').replace('\n', ' ')
     rows.append("| `%s` | %s | %s — *needs:* %s | %s | %s | %s |" % (sid, m.get('property', ''), what, need, 'yes' if ok else 'partly: see meta.json', caught, notes.get(sid, '')))
